@@ -997,8 +997,66 @@ def r3_same_path(ctx, rid):
                           label=f"orphan {norm(vs)}")
 
 
+
+def r4_positions_inside_backend_variable(ctx, rid):
+    """run() slices each backend variable's record with positions INSIDE that variable.  _get_var_idx translates such a
+    position into a state-vector position whenever the layout of an earlier get_run_func/get_jacobian_func call is
+    still stored on the template (self._state_var_indices).  Hence: in run(), every path from the compilation (apply) to
+    each get_variable_positions call must drop that layout first; and the translation branch of _get_var_idx must only
+    be taken from the stored layout (so that dropping it is sufficient)."""
+    import ast as _ast
+    from engine.util import call_name as _cn, stmt_calls as _sc
+    f = ctx.repo.get_func(REL, "CircuitTemplate.run")
+    cfg = ctx.cfg(f)
+    applies = [st for st in cfg.stmts() if not isinstance(st, (_ast.If, _ast.For, _ast.While, _ast.Try, _ast.With)) and any(
+        _cn(c) == "apply" and isinstance(c.func, _ast.Attribute) for c in _sc(st))]
+    uses = [st for st in cfg.stmts() if not isinstance(st, (_ast.If, _ast.For, _ast.While, _ast.Try, _ast.With)) and any(
+        _cn(c) == "get_variable_positions" for c in _sc(st))]
+    if len(applies) != 1 or not uses:
+        raise AnalysisError(f"{rid}: run(): apply / get_variable_positions calls not recognised ({len(applies)}, {len(uses)})")
+    recvs = set()
+    for st in uses:
+        for c in _sc(st):
+            if _cn(c) == "get_variable_positions" and isinstance(c.func, _ast.Attribute):
+                recvs.add(_ast.unparse(c.func.value))
+    if len(recvs) != 1:
+        raise AnalysisError(f"{rid}: run(): get_variable_positions is called on several receivers {sorted(recvs)}")
+    recv = recvs.pop()
+
+    def drops(st):
+        if isinstance(st, _ast.Assign):
+            for t in st.targets:
+                if isinstance(t, _ast.Attribute) and t.attr == "_state_var_indices" and _ast.unparse(t.value) == recv:
+                    v = st.value
+                    return (isinstance(v, _ast.Dict) and not v.keys) or (isinstance(v, _ast.Call) and _cn(v) == "dict" and not v.args and not v.keywords)
+        if isinstance(st, _ast.Expr) and isinstance(st.value, _ast.Call) and _cn(st.value) == "clear" and isinstance(st.value.func, _ast.Attribute):
+            r = st.value.func.value
+            return isinstance(r, _ast.Attribute) and r.attr == "_state_var_indices" and _ast.unparse(r.value) == recv
+        return False
+    for u in uses:
+        path = cfg.reachable_avoiding(applies[0], u, drops)
+        if path is None:
+            ctx.ok(rid, f, u, f"the stale state-vector layout of `{recv}` is dropped between compilation and the computation of output positions",
+                   {"receiver": recv})
+        else:
+            ctx.violation(rid, f, u, f"run() computes output positions while `{recv}._state_var_indices` may still hold the state-vector layout of an "
+                                     f"earlier get_run_func/get_jacobian_func call: _get_var_idx then returns state-vector positions and run() slices "
+                                     f"the variable's own record with them (another unit's trajectory under the requested label)",
+                          {"witness": cfg.path_str(path), "receiver": recv})
+    g = ctx.repo.get_func(REL, "CircuitTemplate._get_var_idx")
+    subs = [n for n in _ast.walk(g.node) if isinstance(n, _ast.Subscript) and isinstance(n.value, _ast.Attribute)
+            and n.value.attr not in ("_vectorization_indices",) and isinstance(n.value.value, _ast.Name) and n.value.value.id == g.self_name]
+    tables = sorted({n.value.attr for n in subs})
+    if tables == ["_state_var_indices"] or not tables:
+        ctx.ok(rid, g, g.node, "_get_var_idx translates positions only through the stored layout _state_var_indices", {"tables": tables},
+               label="translation table of _get_var_idx")
+    else:
+        raise AnalysisError(f"{rid}: _get_var_idx reads unexpected tables {tables}")
+
+
 RULES = [
     ("C06-R1", r1_namespaces, 22),
     ("C06-R2", r2_label_data_lockstep, 4),
     ("C06-R3", r3_same_path, 9),
+    ("C06-R4", r4_positions_inside_backend_variable, 3),
 ]
